@@ -26,7 +26,7 @@ fn main() {
     std::panic::set_hook(Box::new(|_| {}));
     let mut rng = Rng::new(seed.wrapping_mul(0x2545F4914F6CDD1D) ^ fnv(&suite));
     let mut t = Trace::create(&out);
-    let extra = String::new();
+    let mut extra = String::new();
     let log = std::sync::Arc::new(comp::NoteLog::default());
     stretto::verif::install(Some(log.clone()));
     let mut ex = comp::Exec::new(log);
@@ -36,6 +36,7 @@ fn main() {
         "bloom" => comp::suite_bloom(&mut rng, cases, &mut t, &mut ex),
         "tlfu" => comp::suite_tlfu(&mut rng, cases, &mut t, &mut ex),
         "policy" => comp::suite_policy(&mut rng, cases, &mut t, &mut ex),
+        "bloomfp" => extra = comp::suite_bloomfp(&mut rng, cases, &mut t),
         "replay" => comp::replay(arg(&args, "--in").expect("--in FILE"), &mut t, &mut ex),
         _ => {
             eprintln!("unknown suite {}", suite);
